@@ -454,7 +454,7 @@ func init() {
 		ID: "C06", Level: "exploration",
 		Rule: "B1: every string of <= 3 (thorough: 4) symbols over a 48-symbol alphabet (all scanner-relevant bytes, quotes, digits, letters, blanks, NUL, 2- and 3-byte UTF-8, lone continuation byte, 0xFF); B2: every sequence of <= 4 (thorough: 5-6) tokens over 31 tokens joined with and without blanks; for each string Compile, CompileWithNS(nil,{},{a:u}) and MustCompile run under recover: no panic escapes, exactly one of (expr, error), MustCompile non-nil, an accepted expression reports its text and can be handed to Select. Calls: every function name x arity 0..4 x argument tuples, bare / in a predicate / as a step (Compile only). Nest: every repeating unit of 1-2 (thorough: 3) wrappers out of 30 recursive constructs in 7 outer contexts nested to depth 10..10^5 (thorough: 10^6, 10^7), each compiled in a child process with a 64 MiB stack cap; a stack overflow, crash or hang is a violation; non-trivial = string accepted by Compile / nesting case; distinct = distinct strings",
 		Assumptions:    []string{"bounded string length / token count / nesting depth", "an unguarded recursion needs < 64 MiB of stack per 10^5..10^6 frames to be visible"},
-		Budget:         budget(55*time.Second, 14*time.Minute),
+		Budget:         budget(90*time.Second, 14*time.Minute),
 		MinRefOutcomes: 1,
 		Spaces: func(tier string) []*explore.Space {
 			if tier == "thorough" {
